@@ -58,7 +58,8 @@ func (r *Runtime) functionproto_toString(call FunctionCall) Value {
 	case funcObjectImpl:
 		return f.source()
 	case *proxyObject:
-		if _, ok := f.target.self.(funcObjectImpl); ok {
+		// IsCallable(proxy): decided when the proxy is created, and kept when it is revoked (target is nil then)
+		if f.call != nil {
 			return asciiString("function () { [native code] }")
 		}
 	}
